@@ -233,12 +233,18 @@ Proof.
   - unfold builtin_return in H. destruct args as [|a [|b args]]; inversion H; subst;
       (split; [apply keep_status; exact F | unfold error_divert; try destruct spf; intros o; discriminate]).
   - inversion H; subst. split; [apply keep_same; auto | intros o; discriminate].
+  - inversion H; subst. split; [apply keep_status; exact F | intros o; discriminate].
+  - inversion H; subst. split; [apply keep_status; exact F | unfold error_divert; destruct spf; intros o; discriminate].
   - inversion H; subst. split; [|intros o; discriminate].
     split; [reflexivity | | exact F].
     cbn [trace set_status push_trace set_trace]. rewrite count_push.
     apply negb_true_iff in Hp. rewrite Hp. reflexivity.
   - inversion H; subst. split; [apply keep_status; exact F | intros o; discriminate].
   - inversion H; subst. split; [apply keep_status; exact F | intros o; discriminate].
+  - destruct (job_wait args s) as [stw sw] eqn:Ew. inversion H; subst.
+    split; [|intros o; discriminate]. unfold job_wait in Ew.
+    destruct (match args with [_] => last_async s | _ => None end);
+      [destruct (lookup_job n (jobs s))|]; inversion Ew; subst; apply keep_same; auto.
   - inversion H; subst. split; [apply keep_status; exact F | intros o; discriminate].
 Qed.
 
@@ -261,6 +267,21 @@ Proof.
            apply keep_same; auto.
         -- apply good_ret; [apply keep_refl; exact F | apply not_abort_expansion].
       * apply good_ret; [apply keep_same; auto | apply not_abort_errexit].
+      * (* x=$(body) *)
+        destruct (run_subshell n stk body s) as [child|] eqn:Es; [|apply good_none].
+        pose proof (Isub _ _ _ _ Es Hp F) as Hcount.
+        destruct (is_ronly x s).
+        -- apply good_ret; [|apply not_abort_expansion]. split; [reflexivity | exact Hcount | exact F].
+        -- apply good_ret; [|apply not_abort_errexit]. split; [reflexivity | exact Hcount | exact F].
+      * (* : $(body) *)
+        destruct (run_subshell n stk body s) as [child|] eqn:Es; [|apply good_none].
+        pose proof (Isub _ _ _ _ Es Hp F) as Hcount.
+        apply good_ret; [|apply not_abort_errexit]. split; [reflexivity | exact Hcount | exact F].
+      * (* { a & } *)
+        assert (Hpl : plain_list k (LCons a LNil) = true) by (cbn [plain_list]; rewrite Hp; reflexivity).
+        destruct (run_subshell n stk (LCons a LNil) s) as [child|] eqn:Es; [|apply good_none].
+        pose proof (Isub _ _ _ _ Es Hpl F) as Hcount.
+        apply good_ret; [|intros o; discriminate]. split; [reflexivity | exact Hcount | exact F].
       * (* call *)
         assert (Hfin : forall (o : option res), good s o ->
                   good s (match o with
